@@ -717,7 +717,21 @@ pub fn run_history(rng: &mut Rng, mix: Mix) -> Outcome {
                     }
                 }
             } else {
-                let tc = valid_text(run.rng, None);
+                // near the 8192-byte limit, now and then a record sized to land exactly on it (or one byte to
+                // either side)
+                let room = 8192usize.saturating_sub(lit_len);
+                let exact = if room <= 14 + 255 + 1 && room + 1 >= 14 && run.rng.chance(1, 2) {
+                    crate::model::text::txt_of_wire_len((room + 1).saturating_sub(run.rng.below(3)))
+                } else {
+                    None
+                };
+                if exact.is_some() {
+                    run.note("inserts_sized_to_the_8192_limit");
+                }
+                let tc = match exact {
+                    Some(tc) => tc,
+                    None => valid_text(run.rng, None),
+                };
                 let via_string = run.rng.chance(1, 2);
                 let what = format!("insert_rr{}({:?}, {:?})", if via_string { "_from_string" } else { "" }, section, &tc.text[..tc.text.len().min(80)]);
                 run.logp(what.clone());
